@@ -182,7 +182,8 @@ impl<'v> CheapCallStack<'v> {
     /// either there the stack is empty, or the top of the stack lacks location
     /// information (e.g. called from Rust).
     pub(crate) fn top_frame(&self) -> Option<Frame> {
-        Some(self.stack.last().as_ref()?.to_frame())
+        // The top entry is at `count - 1`: the backing array is allocated at full capacity.
+        Some(self.stack[..self.count].last()?.to_frame())
     }
 
     /// The location at the top of the stack. May be `None` if
